@@ -324,6 +324,10 @@ def _extent(rng, kind, small=True):
             order = list(range(ngr))
             rng.shuffle(order)
             e.update({"gsz": gsz, "capacity": ngr * gsz, "grains": [order[g] if rng.random() < 0.3 else (None if rng.random() < 0.8 else "z") for g in range(ngr)]})
+        # SE-sparse type 1 (unmapped: falls through to the parent like type 0).  A private generator seeded from the extent keeps the main
+        # random stream, and with it every other generated image, unchanged
+        r2 = random.Random(repr(e["grains"]))
+        e["grains"] = ["u" if x is None and r2.random() < 0.5 else x for x in e["grains"]]
     return e
 
 
